@@ -595,6 +595,14 @@ example : guarded [.unpackAuth 23, .verify, .decode .remainder 23, .assertValid,
     .orLookupByAddr, .callPeer] = false := by decide
 example : run { toyEnv with netAddr := some [7, 7] } [.unpackAuth 23, .verify, .decode .remainder 23, .assertValid,
     .lookupPeer, .orLookupByAddr, .callPeer] toyDatagram = .called [7, 7] [9, 9] none := by decide +kernel
+/-- the check written as an `assert` statement: not guarded, because the model knows the interpreter configuration —
+    under `python -O` (`optimized := true`) the tampered datagram enters the handler, otherwise it is rejected -/
+example : guarded [.unpackAuth 23, .verify, .decode .remainder 23, .assertDebug, .lookupPeer, .touchPeer, .callPeer]
+    = false := by decide
+example : run { toyEnv with optimized := true } [.unpackAuth 23, .verify, .decode .remainder 23, .assertDebug, .lookupPeer,
+    .touchPeer, .callPeer] (toyDatagram.set 27 8) = .called [5, 5] [8, 9] none := by decide +kernel
+example : run toyEnv [.unpackAuth 23, .verify, .decode .remainder 23, .assertDebug, .lookupPeer,
+    .touchPeer, .callPeer] (toyDatagram.set 27 8) = .rejected .signature := by decide +kernel
 /-- a harmless reordering (lookup before the check, touch after it) stays guarded -/
 example : guarded [.unpackAuth 23, .lookupPeer, .verify, .assertValid, .decode .remainder 23, .touchPeer, .callPeer]
     = true := by decide
